@@ -83,8 +83,12 @@ def pred_adjust_intervals(case, ctx):
     iv, labs, tmin, tmax = case["iv"], case["labels"], case["t_min"], case["t_max"]
     arr = np.array(iv, dtype=float).reshape(-1, 2)
     L = list(labs) if case["with_labels"] else None
-    out, ol = ctx.call(util.adjust_intervals, arr.copy(), L, t_min=tmin, t_max=tmax, start_label="<S>", end_label="<E>")
+    given = arr.copy()
+    out, ol = ctx.call(util.adjust_intervals, given, L, t_min=tmin, t_max=tmax, start_label="<S>", end_label="<E>")
     out = np.asarray(out, dtype=float)
+    # the annotation that was handed in is still the annotation afterwards (it will be adjusted again, to another range)
+    if given.tobytes() != arr.tobytes():
+        raise Violation("adjust_intervals changed the interval array it was given: %r -> %r (t_min=%r, t_max=%r)" % (arr.tolist(), given.tolist(), tmin, tmax))
     if out.ndim != 2 or out.shape[1] != 2 or len(out) == 0:
         raise Violation("result is not a non-empty n-by-2 array: %r" % (out.tolist(),))
     if not case["with_labels"]:
